@@ -21,7 +21,7 @@ from vf import geom, hexconv
 ID = "C14"
 BUDGET = {"quick": 2400, "thorough": 60000}
 MIN_KEYS = 200
-REQUIRED = ["judged:history:value-after-smoothing-vs-fresh-grid",
+REQUIRED = ["judged:history:value-after-smoothing-vs-fresh-grid", "judged:history:value-after-update-vs-fresh-grid", "history-update:nested-list",
     "judged:renumbering:hex:single", "judged:renumbering:hex:neighbours",
     "judged:renumbering:quad:single", "judged:renumbering:quad:neighbours",
     "exhaustive:24-renumberings-of-one-hex", "exhaustive:4-renumberings-of-one-quad",
@@ -266,6 +266,22 @@ def gen_case(ctx):
         pts, cells = hex_lattice(dims)
         pts = [[(p[a] + rng.uniform(-0.2, 0.2)) * side for a in range(3)] for p in pts]
         return {"mode": "history", "kind": "hex", "points": pts, "cells": [list(c) for c in cells], "iterations": rng.randint(1, 4)}
+    if u > 0.94:
+        # history: a grid built directly from points (float array / nested list) whose vertices are then moved one by one
+        # through GridBase.update() reports what a fresh grid of the final positions reports
+        kind = rng.choice(["hex", "quad"])
+        side = 10 ** rng.uniform(math.log10(2500), 5)
+        if kind == "hex":
+            pts, cells = hex_lattice(rng.choice([[2, 1, 1], [2, 2, 1], [2, 2, 2]]))
+        else:
+            pts, cells = quad_lattice(rng.choice([(2, 2), (3, 2)]))
+        pts = [[(p[a] + (rng.uniform(-0.15, 0.15) if (kind == "hex" or a < 2) else 0.0)) * side for a in range(3)] for p in pts]
+        moves = []
+        for _ in range(rng.randint(1, 4)):
+            i = rng.randrange(len(pts))
+            moves.append([i, [pts[i][a] + (rng.uniform(-0.2, 0.2) * side if (kind == "hex" or a < 2) else 0.0) for a in range(3)]])
+        return {"mode": "history-update", "kind": kind, "points": pts, "cells": [list(c) for c in cells], "moves": moves,
+                "container": rng.choice(["float-array", "nested-list"])}
     if u < 0.12:
         n = rng.choice([1, 1, 2])
         side = 10 ** rng.uniform(math.log10(250), 6)
@@ -512,7 +528,42 @@ def run_history(ctx, case):
                       f"{q1!r} but a fresh grid of the moved points reports {q2!r}")
 
 
+def run_history_update(ctx, case):
+    from classy_blocks.optimize.grid import HexGrid, QuadGrid
+
+    cls = HexGrid if case["kind"] == "hex" else QuadGrid
+    pts = [list(p) for p in case["points"]]
+    given = np.array(pts, dtype=float) if case["container"] == "float-array" else [list(p) for p in pts]
+    ctx.evaluated()
+    ctx.key(["history-update", case["kind"], len(case["cells"]), len(case["moves"]), case["container"]])
+    try:
+        grid = cls(given, [list(c) for c in case["cells"]])
+        float(grid.quality)
+        for i, pos in case["moves"]:
+            grid.update(i, np.array(pos, dtype=float))
+            pts[i] = list(pos)
+        q1 = float(grid.quality)
+        cq1 = [float(c.quality) for c in grid.cells]
+        fresh = cls(np.array(pts, dtype=float), [list(c) for c in case["cells"]])
+        q2 = float(fresh.quality)
+        cq2 = [float(c.quality) for c in fresh.cells]
+    except ValueError as err:
+        if "Degenerate" in str(err):
+            ctx.count("history:degenerate-skipped")
+            return
+        raise
+    ctx.count("judged:history:value-after-update-vs-fresh-grid")
+    ctx.count(f"history-update:{case['container']}")
+    n = len(case["cells"])
+    if differs(q1, q2, n) or any(differs(a, b) for a, b in zip(cq1, cq2)):
+        ctx.violation(f"history:stale-value-after-update:{case['container']}",
+                      f"{case['kind']} grid built from a {case['container']}, {len(case['moves'])} vertices moved through update(): the grid reports "
+                      f"{q1!r} (cells {cq1}), a fresh grid of the same positions {q2!r} (cells {cq2})")
+
+
 def run_case(ctx, case):
+    if case["mode"] == "history-update":
+        return run_history_update(ctx, case)
     if case["mode"] == "history":
         return run_history(ctx, case)
     if case["mode"] == "stretch":
